@@ -92,6 +92,33 @@ Proof.
            a Hmax s0 t0 f1 F' fk G x Hwf Hburst Hf1 Hlive Hwin Hx Hbefore).
 Qed.
 
+(** Round 4: the block period to the nanosecond, for every configuration for
+    which the code creates a limiter ([block_period_exact] over the login path
+    with [Auth.rateLimiter] as initUsers sets it): after the burst and any
+    attempts of other addresses, an attempt of [a] is rejected iff its check
+    reads an instant strictly before [a_now2 fk + block_dur cfg]. *)
+Theorem block_period_exact_configured cfg a :
+  0 < ac_attempts cfg -> 0 < ac_block_min cfg ->
+  forall s0 t0 f1 F' fk G x,
+    wf_from t0 ((f1 :: F') ++ G ++ [x]) ->
+    burst a (Z.to_nat (ac_attempts cfg)) (f1 :: F') fk ->
+    a_addr f1 = a ->
+    ~ live (a_now f1) s0 a ->
+    Forall (fun e => a_addr e = a -> a_now e <= a_now2 f1 + minute_ns) F' ->
+    Forall (fun e => a_addr e <> a) G ->
+    a_addr x = a ->
+    let s := fst (run_logins_opt (mk_limiter cfg) s0 ((f1 :: F') ++ G)) in
+    evaluated (snd (login_opt (mk_limiter cfg) x s)) = false <-> a_now x < a_now2 fk + block_dur cfg.
+Proof.
+  intros Ha Hb. destruct (mk_limiter_present cfg Ha Hb) as [Hmk Hmax].
+  intros s0 t0 f1 F' fk G x Hwf Hburst Hf1 Hlive Hwin HG Hx.
+  rewrite Hmk, !run_logins_opt_some. cbn [login_opt].
+  set (c := {| rl_ttl := minute_ns; rl_block := block_dur cfg; rl_max := Z.to_N (ac_attempts cfg) |}).
+  assert (Hb' : burst a (N.to_nat (rl_max c)) (f1 :: F') fk).
+  { cbn [rl_max c]. rewrite Z_N_nat. exact Hburst. }
+  exact (block_period_exact c a Hmax s0 t0 f1 F' fk G x Hwf Hb' Hf1 Hlive Hwin HG Hx).
+Qed.
+
 (** Without a limiter ([auth_attempts: 0] or [block_auth_min: 0]) every
     attempt is evaluated and nothing is recorded. *)
 Theorem no_limiter_unthrottled s h :
